@@ -173,8 +173,11 @@ mutual
 def decVal (lax : Mode) : Shape → Cbor → Option Val
   | s, .tag w n x =>
     match s with
-    | .raw => some (.r (enc (.tag w n x)))
-    | .point => none
+    | .raw =>
+      -- fxamacker strips the self-described-CBOR tag (55799) before it hands the item to any
+      -- destination, RawMessage and Unmarshaler types included
+      if n = 55799 then decVal lax .raw x else some (.r (enc (.tag w n x)))
+    | .point => if lax.tags && n == 55799 then decVal lax .point x else none
     | .opaque => none
     | .bytes =>
       -- `#6.24(bytes)` (encoded CBOR) is the wire form of the byte fields that carry blocks and
@@ -234,6 +237,78 @@ def decFields (lax : Mode) : List Shape → List Cbor → Option (List Val)
     | some v, some vs => some (v :: vs)
     | _, _ => none
   | _, _ => none
+end
+
+/-! ### `conforms`: the shape a message type requires, stated without building any value
+    (arity of every struct, kind and width of every field, a point = `[]` or `[slot, hash]`,
+    `#6.24(bytes)` admitted for byte fields). `GV.Proofs.MsgCodec.strict_iff_conforms` shows the
+    strict reading accepts exactly the conforming trees. -/
+def leafConforms (s : Shape) (t : Cbor) : Bool :=
+  match s, t with
+  | .raw, _ => true
+  | .uint bits, .int false _ n => decide (n < 2 ^ bits)
+  | .bool, .prim .w0 20 => true
+  | .bool, .prim .w0 21 => true
+  | .text, .str true _ _ => true
+  | .text, .strI true _ => true
+  | .bytes, .str false _ _ => true
+  | .bytes, .strI false _ => true
+  | .fixed n, .str false _ b => decide (b.length = n)
+  | .fixed n, .strI false cs => decide ((chunkBytes cs).length = n)
+  | _, _ => false
+
+def pointConforms : List Cbor → Bool
+  | [] => true
+  | [.int false _ _, .str false _ _] => true
+  | [.int false _ _, .strI false _] => true
+  | _ => false
+
+mutual
+def conforms : Shape → Cbor → Bool
+  | s, .tag _ n x =>
+    match s with
+    | .raw => true
+    | .bytes => n == 24 && conforms .bytes x
+    | _ => false
+  | s, .arr _ xs =>
+    match s with
+    | .raw => true
+    | .point => pointConforms xs
+    | .list e => conformsL e xs
+    | .struct fs => conformsF fs xs
+    | _ => false
+  | s, .arrI xs =>
+    match s with
+    | .raw => true
+    | .point => pointConforms xs
+    | .list e => conformsL e xs
+    | .struct fs => conformsF fs xs
+    | _ => false
+  | s, .map _ xs =>
+    match s with
+    | .raw => true
+    | .map k v => conformsM k v xs
+    | _ => false
+  | s, .mapI xs =>
+    match s with
+    | .raw => true
+    | .map k v => conformsM k v xs
+    | _ => false
+  | s, .int neg w n => leafConforms s (.int neg w n)
+  | s, .str txt w b => leafConforms s (.str txt w b)
+  | s, .strI txt cs => leafConforms s (.strI txt cs)
+  | s, .prim w n => leafConforms s (.prim w n)
+def conformsL (e : Shape) : List Cbor → Bool
+  | [] => true
+  | x :: xs => conforms e x && conformsL e xs
+def conformsF : List Shape → List Cbor → Bool
+  | [], [] => true
+  | f :: fs, x :: xs => conforms f x && conformsF fs xs
+  | _, _ => false
+def conformsM (k v : Shape) : List Cbor → Bool
+  | [] => true
+  | [_] => false
+  | x :: y :: xs => conforms k x && conforms v y && conformsM k v xs
 end
 
 /-- keys of a flattened entry list -/
